@@ -303,6 +303,9 @@ func (it *Interp) eval(fr *frame, e Expr) Value {
 			it.bigLiteral = true
 		}
 		return Value{T: TInt, I: it.wrap(x.V)}
+	case PaddedInt:
+		it.feat("intlit")
+		return Value{T: TInt, I: it.wrap(x.V)}
 	case BoolLit:
 		return Value{T: TBool, B: x.V}
 	case StrLit:
